@@ -7,14 +7,29 @@ IMPORTS = ['DCPrelude', 'Conc', 'ConcTrace']
 SKIP_OPS = ('stats',)      # Settings updates outside a transaction are not calls of the machine
 
 
-def call_tags(events, timed_out=False):
-    """events: [(kind, what)] of ONE API call of one client -> list of tag names."""
-    tags = []
+class _Tags(list):
+    """list of tag names that also remembers, per tag, the index of the event that produced it"""
+
+    def __init__(self):
+        list.__init__(self)
+        self.at = []
+        self.cur = 0
+
+    def append(self, t):
+        list.append(self, t)
+        self.at.append(self.cur)
+
+
+def call_tags(events, timed_out=False, with_index=False):
+    """events: [(kind, what)] of ONE API call of one client -> list of tag names (with_index: list of
+    (tag, index of the event that produced it))."""
+    tags = _Tags()
     in_txn = False
     body_open = False
     after_commit = False
     n = len(events)
     for idx, (kind, what) in enumerate(events):
+        tags.cur = idx
         if kind == 'sleep':
             continue
         if kind == 'file':
@@ -62,7 +77,9 @@ def call_tags(events, timed_out=False):
                 after_commit = False
     if tags and tags[-1] == 'TBeginBusy':
         tags.append('TReturn')            # gave up without a value file to remove
-    return tags
+    if with_index:
+        return list(zip(list(tags), tags.at))
+    return list(tags)
 
 
 def tags_from_shorts(shorts, timed_out=False):
